@@ -141,6 +141,26 @@ pub fn run(a: &Args) {
         let tmp = std::env::temp_dir().join(format!("vharness_c17_{}", std::process::id())); std::fs::write(&tmp, &b[..b.len() - 1]).unwrap();
         let r = guard(|| match fmt { Fmt::Pth => Pth::from_pathbuf(&tmp).is_ok(), Fmt::Smx => Smx::from_pathbuf(&tmp).is_ok() }); let _ = std::fs::remove_file(&tmp);
         if r != Some(false) { st.fail(format!("[C17] {path} minus its last byte is accepted by from_pathbuf"), path.into()); }
+        // loads are independent: after rejected loads (a cut file, a file without the magic, the tail of a cut file) on this thread the
+        // good file still loads to the same structure, through from_pathbuf and from_file, and a tail without magic is still rejected
+        {
+            let dbg_of = |pb: &std::path::PathBuf| -> Option<String> { guard(|| match fmt { Fmt::Pth => Pth::from_pathbuf(pb).ok().map(|p| format!("{:?}", p)), Fmt::Smx => Smx::from_pathbuf(pb).ok().map(|p| format!("{:?}", p)) }).flatten() };
+            let good: std::path::PathBuf = path.into();
+            let want = dbg_of(&good);
+            let t = |name: &str, bytes: &[u8]| -> std::path::PathBuf { let p = std::env::temp_dir().join(format!("vharness_c17_{}_{name}", std::process::id())); std::fs::write(&p, bytes).unwrap(); p };
+            let half = b.len() / 2;
+            let cases: Vec<(&str, std::path::PathBuf)> = vec![("cut", t("cut", &b[..half])), ("nomagic", t("nomagic", &b[6..])), ("tail", t("tail", &b[half..])), ("empty", t("empty", &[]))];
+            for (name, pth) in &cases {
+                st.evaluations += 2;
+                if dbg_of(pth).is_some() { st.fail(format!("[C17] the {name} part of {path} is accepted as a file (after earlier loads on the same thread)"), format!("{path} seq {name}")); }
+                let again = dbg_of(&good);
+                if again != want { st.fail(format!("[C17] after a rejected load ({name}) the intact file {path} loads differently / is rejected"), format!("{path} seq {name}")); }
+                let viaf = guard(|| { let mut f = std::fs::File::open(path).unwrap(); match fmt { Fmt::Pth => Pth::from_file(&mut f).ok().map(|p| format!("{:?}", p)), Fmt::Smx => Smx::from_file(&mut f).ok().map(|p| format!("{:?}", p)) } }).flatten();
+                if viaf != want { st.fail(format!("[C17] after a rejected load ({name}) from_file on the intact {path} differs"), format!("{path} seq {name}")); }
+            }
+            for (_, pth) in &cases { let _ = std::fs::remove_file(pth); }
+            st.bump("load sequences: rejected file then intact file (from_pathbuf / from_file)");
+        }
         if a.thorough() { st.exhaustive.push(format!("every cut point of {path} ({} bytes)", b.len())); }
     }
     st.rule = "real Pth / Smx BinRead + BinWrite under catch_unwind and a counting global allocator: generated files (0..n nodes / objects / points / triangles / checkpoints, NaN and all-ones payloads, canonical and dirty pads/text), every truncation point of small files, an appended byte, hostile counts (negative, 2^31-1, 2^30, larger than the content) in every count field, random bytes with and without the magic, the two shipped files (canonical re-write, from_file, from_pathbuf, cut points); peak allocation <= 16 x input + 256 KB".into();
